@@ -1071,6 +1071,7 @@ class OdeSystem(object):
                             total_steps = self.__alloc_space_steps(tf - dTime) + 1 + len(roots)
                             self.__allocate_soln_space(total_steps)
 
+                        __events_before_step = len(self.__events)
                         for ev_idx, (root, ev) in enumerate(zip(roots, evs)):
                             if dTime >= 0:
                                 true_positive = (self.__t[self.counter] <= root) & (root <= prev_time + dTime)
@@ -1094,7 +1095,18 @@ class OdeSystem(object):
                             # the step is re-taken up to the event by a nested call, which shortens the working step to get there:
                             # the step in use before is the one to continue with afterwards
                             __dt_before_landing = self.dt
-                            self.integrate(roots[-1])
+                            try:
+                                self.integrate(roots[-1])
+                            except BaseException:
+                                # the step was not (completely) re-taken: those of its events that lie beyond what has been recorded are
+                                # found again when the rest of the step is repeated; the working step is the one in use before the attempt
+                                __t_reached = self.__t[self.counter]
+                                self.__events[__events_before_step:] = [
+                                    __ev_state for __ev_state in self.__events[__events_before_step:]
+                                    if (__ev_state.t - __t_reached) * (roots[-1] - __t_reached) <= 0
+                                ]
+                                self.dt = __dt_before_landing
+                                raise
                             self.dt = __dt_before_landing
                             self.__int_status = 2
                         else:
